@@ -75,19 +75,36 @@ def fixed_form(s):
 
 def op_add_block(c, T, p, o):
     q = G.mkname(c, 'q', o['alpha']); qv = c.real('qv')
-    blk = T.t2block(q, qv, p.rocks[o.get('rock', 0)])
+    rk = o.get('rock', 0); qr = None
+    if rk == 'fresh':        # a rock type object the grid has never seen; its name is free (may alias a registered name)
+        qr = G.mkname(c, 'qr', o['alpha'])
+        blk = T.t2block(q, qv, T.rocktype(qr))
+    elif rk == 'default':    # t2block(name, volume): the constructor's own default rock type object ('dfalt')
+        blk = T.t2block(q, qv)
+        # a concrete str does not meet the constant-hash symbolic keys in a real dict: the aliasing case
+        # (registered name == new rock's name) is covered by rock='fresh', here it is assumed away
+        for n in p.rnames: G.assume_distinct(c, n, 'dfalt')
+    else:
+        blk = T.t2block(q, qv, p.rocks[rk])
     def klass(m, group=None):
         i = _alias_index(m, q, p.bnames)
-        if i is None: return 'new-name'
-        return 'name-exists-connected' if _connected(p.shape, i) else 'name-exists-unconnected'
+        kl = 'new-name' if i is None else ('name-exists-connected' if _connected(p.shape, i) else 'name-exists-unconnected')
+        if rk in ('fresh', 'default'):
+            rn = name_value(m, qr) if qr is not None else 'dfalt'
+            kl += ',rock-unregistered-%s' % ('name-registered' if rn in [name_value(m, n) for n in p.rnames] else 'name-new')
+        return kl
     return dict(run=lambda: p.g.add_block(blk), klass=klass,
-                args=lambda m: dict(name=name_value(m, q), volume=num_value(m, qv), rock=o.get('rock', 0)))
+                args=lambda m: dict(name=name_value(m, q), volume=num_value(m, qv), rock=rk,
+                                    rockname=None if qr is None else name_value(m, qr)))
 
 
 def op_delete_block(c, T, p, o):
     q = G.mkname(c, 'q', o['alpha'])
-    return dict(run=lambda: p.g.delete_block(q),
-                klass=lambda m, group=None: 'absent' if _alias_index(m, q, p.bnames) is None else 'existing',
+    def klass(m, group=None):
+        i = _alias_index(m, q, p.bnames)
+        if i is None: return 'absent'
+        return 'existing-self-connected' if [i, i] in [list(x) for x in p.shape['cons']] else 'existing'
+    return dict(run=lambda: p.g.delete_block(q), klass=klass,
                 args=lambda m: dict(name=name_value(m, q)))
 
 
@@ -99,16 +116,32 @@ def op_delete_readd_block(c, T, p, o):
         blk = p.g.block[q] if q in p.g.block else None
         p.g.delete_block(q)
         if blk is not None: p.g.add_block(blk)
-    return dict(run=run,
-                klass=lambda m, group=None: 'absent' if _alias_index(m, q, p.bnames) is None else 'existing',
+    def klass(m, group=None):
+        i = _alias_index(m, q, p.bnames)
+        if i is None: return 'absent'
+        return 'existing-self-connected' if [i, i] in [list(x) for x in p.shape['cons']] else 'existing'
+    return dict(run=run, klass=klass,
                 args=lambda m: dict(name=name_value(m, q)))
 
 
 def op_add_connection(c, T, p, o):
     i, j = o['pair']
+    if o.get('foreign'):
+        # second block: a block object that is NOT in the grid; its name is free (it may be the name of a
+        # grid block - a same-named copy - or a name the grid does not have)
+        qf = G.mkname(c, 'qf', o['alpha'])
+        fb = T.t2block(qf, c.real('qfv'), p.rocks[0])
+        blks = [p.blocks[i], fb] if o['foreign'] == 2 else [fb, p.blocks[i]]
+        con = T.t2connection(blks)
+        def klass(m, group=None):
+            k_ = _alias_index(m, qf, p.bnames)
+            return 'block-not-in-grid,' + ('name-new' if k_ is None else 'name-of-grid-block')
+        return dict(run=lambda: p.g.add_connection(con), klass=klass,
+                    args=lambda m: dict(pair=[i, j], foreign=o['foreign'], fname=name_value(m, qf)))
     con = T.t2connection([p.blocks[i], p.blocks[j]])
     cons = [tuple(x) for x in p.shape['cons']]
     k = 'same-orientation-exists' if (i, j) in cons else ('reverse-exists' if (j, i) in cons else 'new-pair')
+    if i == j: k += ',self-connection'
     return dict(run=lambda: p.g.add_connection(con), klass=lambda m, group=None: k, args=lambda m: dict(pair=[i, j]))
 
 
@@ -117,7 +150,7 @@ def op_delete_connection(c, T, p, o):
     def klass(m, group=None):
         a, b = _alias_index(m, q1, p.bnames), _alias_index(m, q2, p.bnames)
         cons = [tuple(x) for x in p.shape['cons']]
-        if (a, b) in cons: return 'existing'
+        if (a, b) in cons: return 'existing-self-connection' if a == b else 'existing'
         if (b, a) in cons: return 'reverse-of-existing'
         return 'absent'
     return dict(run=lambda: p.g.delete_connection((q1, q2)), klass=klass,
@@ -182,8 +215,13 @@ def op_reorder(c, T, p, o):
         for k, rev in o['cons']:
             i, j = p.shape['cons'][k]
             cn.append((p.bnames[j], p.bnames[i]) if rev else (p.bnames[i], p.bnames[j]))
-    kl = 'blocks-%s,connections-%s' % ('permuted' if bn else 'unchanged',
-                                       'unchanged' if not cn else ('some-reversed' if any(r for _, r in o['cons']) else 'permuted'))
+    def listclass(idx, n):
+        if len(set(idx)) < len(idx): return 'repeated'
+        return 'subset' if len(idx) < n else None
+    kl = 'blocks-%s,connections-%s' % (
+        'unchanged' if not bn else (listclass(o['perm'], p.shape['nb']) or 'permuted'),
+        'unchanged' if not cn else (listclass([k for k, _ in o['cons']], len(p.shape['cons'])) or
+                                    ('some-reversed' if any(r for _, r in o['cons']) else 'permuted')))
     return dict(run=lambda: p.g.reorder(bn, cn), klass=lambda m, group=None: kl,
                 args=lambda m: dict(perm=o.get('perm'), cons=o.get('cons')))
 
@@ -246,6 +284,12 @@ def op_t2data_rename_blocks(c, T, p, o):
     dat.grid = p.g
     if p.bnames:
         dat.add_generator(D.t2generator(name='gen 1', block=p.bnames[0]))
+    if o.get('data'):
+        # a generator of the same name in the second block and initial conditions for every block
+        # (incon: plain dict name -> [porosity, values], as t2data.read_incons fills it)
+        dat.add_generator(D.t2generator(name='gen 1', block=p.bnames[1]))
+        for i, n in enumerate(p.bnames): dat.incon[n] = [None, [float(i + 1)]]
+    ngen, ninc = len(dat.generatorlist), len(dat.incon)
     keys, vals, bm = _rename_map(c, p, o, p.bnames)
     if o.get('invert'):
         # the preconditions are stated on the map that is APPLIED (keys -> vals); hand over its inverse
@@ -253,13 +297,29 @@ def op_t2data_rename_blocks(c, T, p, o):
         for k, v in zip(keys, vals): bm[v] = k
     nlist = len(p.g.blocklist)
     def extra():
-        return [('blocks', 'renaming loses no block: len(block) == len(blocklist) == %d' % nlist,
-                 len(dat.grid.block) == nlist and len(dat.grid.blocklist) == nlist)]
+        out = [('blocks', 'renaming loses no block: len(block) == len(blocklist) == %d' % nlist,
+                len(dat.grid.block) == nlist and len(dat.grid.blocklist) == nlist)]
+        if o.get('data'):
+            # what t2data.rename_blocks says it renames along with the grid: nothing lost, everything under a block of the grid
+            gl, gd = dat.generatorlist, dat.generator
+            out.append(('data', 'generator dict and list hold the same %d objects' % ngen,
+                        len(gl) == ngen and G._same_objects(gd, gl)))
+            out.append(('data', 'every generator is filed under (its block, its name)',
+                        z_and([G.tup_eq(k, (gen.block, gen.name)) for k, gen in gd.items()])))
+            bl = dat.grid.blocklist
+            out.append(('data', 'every generator sits in a block of the grid',
+                        z_and([z_or([eqf(gen.block, b.name) for b in bl]) for gen in gl])))
+            out.append(('data', 'initial conditions: still %d entries' % ninc, len(dat.incon) == ninc))
+            # block i's initial conditions (tagged i+1) are found under block i's new name
+            out.append(('data', 'each block finds its own initial conditions under its new name',
+                        z_and([z_or([z_and([eqf(k, b.name), v[1][0] == float(i + 1)]) for k, v in dat.incon.items()])
+                               for i, b in enumerate(p.blocks)])))
+        return out
     return dict(run=lambda: dat.rename_blocks(bm, invert=bool(o.get('invert')), fix_blocknames=o.get('fix', True)),
                 grids=lambda: [('grid', dat.grid)],
                 klass=_rename_klass(p, keys, vals, p.bnames, o.get('fix', True)), extra=extra,
                 args=lambda m: dict(map=[[name_value(m, k), name_value(m, v)] for k, v in zip(keys, vals)],
-                                    fix=o.get('fix', True), invert=bool(o.get('invert'))))
+                                    fix=o.get('fix', True), invert=bool(o.get('invert')), data=bool(o.get('data'))))
 
 
 def op_minc(c, T, p, o):
@@ -285,7 +345,9 @@ def op_add(c, T, p, o):
     p2 = G.build(c, T, o['other'], tag='s', alpha=o['alpha'])
     st = {}
     def run(): st['res'] = p.g + p2.g
-    return dict(run=run, grids=lambda: [('result', st['res'])] if 'res' in st else [], klass=_cross_klass(p, p2),
+    # the operands are grids too: `g1 + g2` must leave g1 and g2 as consistent as they were
+    return dict(run=run, grids=lambda: ([('result', st['res'])] if 'res' in st else []) + [('operand-self', p.g), ('operand-other', p2.g)],
+                klass=_cross_klass(p, p2),
                 args=lambda m: dict(other=G.concrete_pre(m, p2)))
 
 
@@ -296,7 +358,7 @@ def op_embed(c, T, p, o):
     def run():
         with contextlib.redirect_stdout(io.StringIO()):
             st['res'] = p.g.embed(p2.g, con)
-    return dict(run=run, grids=lambda: [('result', st['res'])] if st.get('res') is not None else [],
+    return dict(run=run, grids=lambda: ([('result', st['res'])] if st.get('res') is not None else []) + [('operand-self', p.g), ('operand-other', p2.g)],
                 outcome=lambda: 'embedded' if st.get('res') is not None else 'refused',
                 klass=_cross_klass(p, p2),
                 args=lambda m: dict(other=G.concrete_pre(m, p2), host=o['host'], sub=o['sub']))
@@ -377,21 +439,22 @@ def task_step(op, sh, opt, max_paths=6000):
         checks = []
         for tag, g in grids:
             for group, label, val in G.invariant(g):
-                checks.append((group, '%s: %s' % (tag, label), val))
+                checks.append((group, '%s: %s' % (tag, label), val, tag))
         if info.get('extra') and not raised:
-            checks.extend(info['extra']())
+            checks.extend(tuple(x) + ('grid',) * (4 - len(x)) for x in info['extra']())
         if len(samples) < 1 and checks:
-            nontriv = [(gr, lab, str(z3.simplify(v))[:160]) for gr, lab, v in checks if not isinstance(v, bool)]
+            nontriv = [(gr, lab, str(z3.simplify(v))[:160]) for gr, lab, v, _ in checks if not isinstance(v, bool)]
             samples.append(dict(op=op, shape=G.shape_id(sh), outcome=outcome,
                                 example_obligation=nontriv[-1] if nontriv else list(checks[0][:2])))
         seen_groups = set()
-        for group, label, val in checks:
+        for group, label, val, tag in checks:
             if not isinstance(val, bool): distinct.add((label, z3.simplify(val).hash()))
             r = c.prove(val, label)
-            if r == 'sat' and group not in seen_groups:
-                seen_groups.add(group)
+            if r == 'sat' and (group, tag) not in seen_groups:
+                seen_groups.add((group, tag))
                 m = c.failures[-1]['model']
                 kl = info['klass'](m, group)
+                if tag.startswith('operand'): kl += ',' + tag      # the grid that is broken is an operand, not the result
                 if raised: kl += ',raised'
                 kk = '%s/%s/%s' % (op, kl, group)
                 perkey[kk] = perkey.get(kk, 0) + 1
@@ -401,7 +464,7 @@ def task_step(op, sh, opt, max_paths=6000):
                     what='%s [%s] on %s: after the edit NOT(%s)%s' % (op, kl, G.shape_id(sh), label,
                                                                       ' (the edit raised %s)' % raised if raised else ''),
                     replay=dict(op=op, opt={k: v for k, v in o.items()}, pre=G.concrete_pre(m, p),
-                                args=info['args'](m), group=group, label=label)))
+                                args=info['args'](m), group=group, label=label, tag=tag)))
         return outcome
 
     # the sys.setprofile pass that records which repo functions ran is slow: one task per operation does it
@@ -556,6 +619,49 @@ def catalogue(tier):
             if tier == 'quick' and sh['nb'] + other['nb'] > 3: continue
             add('add', sh, alpha=A, other=other)
             add('embed', sh, alpha=A, other=other, host=sh['nb'] - 1, sub=0)
+    # ---- round 4 -------------------------------------------------------------------------------
+    thorough = tier != 'quick'
+    # add_block of a block whose rock type OBJECT the grid has never seen (free rock name, may alias a
+    # registered name) and of t2block(name, volume) with the constructor's default rock type
+    for nb, cons, nr, br in ((0, [], 0, []), (1, [], 1, [0]), (2, [(0, 1)], 2, [0, 1])) + \
+            (((3, [(0, 1), (2, 1)], 2, [0, 1, 1]), (2, [(1, 0)], 1, [0, 0])) if thorough else ()):
+        sh = G.shape(nb, cons, nr=nr, brock=br)
+        add('add_block', sh, alpha=A, rock='fresh')
+        add('add_block', sh, alpha=A, rock='default')
+    # pre-states holding a connection of a block with itself (add_connection accepts one)
+    for nb, cons in ((1, [(0, 0)]), (2, [(0, 0), (0, 1)]), (2, [(1, 0), (1, 1)])) + \
+            (((3, [(0, 1), (1, 1), (2, 1)]), (2, [(0, 0), (1, 1), (0, 1)])) if thorough else ()):
+        sh = G.shape(nb, cons, nr=1)
+        for op_ in ('delete_connection', 'delete_block', 'delete_readd_block', 'check_fix'):
+            add(op_, sh, alpha=A)
+        add('add_block', sh, alpha=A, rock=0)
+        add('demote_block', sh, alpha=A, mode='single')
+        add('reorder', sh, perm=list(range(nb))[::-1], cons=[[q, 0] for q in list(range(len(cons)))[1:] + [0]])
+        add('rename_blocks', sh, alpha='lower', m=1, fix=True)
+        add('rename_blocks', sh, alpha='lower', m=2, fix=True)
+        for i in range(nb): add('add_connection', sh, pair=[i, i])
+    for nb, cons in ((1, []), (2, [(0, 1)])):
+        for i in range(nb): add('add_connection', G.shape(nb, cons, nr=1), pair=[i, i])
+    # add_connection of a connection to a block object that is not in the grid
+    for nb, cons in ((1, []), (2, [(0, 1)])) + (((3, [(0, 1), (2, 1)]),) if thorough else ()):
+        for f_ in (1, 2):
+            add('add_connection', G.shape(nb, cons, nr=1), alpha=A, pair=[0, 0], foreign=f_)
+    # reorder with lists that are not permutations: a subset of the names, a name twice, a connection
+    # left out, a connection named twice (same / both orientations)
+    sh3 = G.shape(3, [(0, 1), (2, 1)], nr=1)
+    for perm in ([1, 0], [2], [0, 0, 1, 2], [1, 2, 1]):
+        add('reorder', sh3, perm=perm, cons=None)
+    for cn in ([[0, 1]], [[1, 0]], [[0, 0], [0, 1], [1, 0]], [[0, 0], [0, 0], [1, 1]], [[1, 1], [0, 0], [1, 0]]):
+        add('reorder', sh3, perm=None, cons=cn)
+    add('reorder', sh3, perm=[2, 0], cons=[[1, 1]])
+    add('reorder', G.shape(2, [(0, 1)], nr=1), perm=None, cons=[[0, 0], [0, 1]])
+    if thorough:
+        sh4 = G.shape(4, [(0, 1), (2, 1), (2, 3)], nr=1)
+        for perm in ([1, 0], [3, 1, 2], [0, 1, 2, 3, 0]): add('reorder', sh4, perm=perm, cons=None)
+        for cn in ([[2, 1]], [[0, 0], [2, 0]], [[0, 1], [1, 0], [2, 0], [0, 0]]): add('reorder', sh4, perm=None, cons=cn)
+    # t2data.rename_blocks with generators in two blocks and initial conditions for every block
+    for nb, cons, m_ in ((2, [(0, 1)], 2), (3, [(0, 1), (2, 1)], 2)) + (((3, [(0, 1), (1, 2), (0, 2)], 3),) if thorough else ()):
+        add('t2data_rename_blocks', G.shape(nb, cons, nr=1), alpha='lower', m=m_, fix=m_ < 3, data=True)
     return schedule(mark_profiled(tasks))
 
 
@@ -620,14 +726,14 @@ def run(tier, seed, rep):
     rep.outside += [
         'grids with more than 4 blocks / 2 rock types in the pre-state (the inductive step covers histories of any length that stay within these sizes)',
         'the "random sequences up to length 60 on 200 blocks" half of the quantifier',
-        'generator / initial-condition bookkeeping of t2data.rename_blocks (only the grid is in the statement)',
-        'the operand grids after __add__/embed (only the returned grid is checked)',
+        'print_block / history specifications of t2data.rename_blocks (round 4: generators and initial conditions are checked, group data)',
     ]
     rep.assumptions += [
         'pre-state satisfies I and its block names / rock names are pairwise distinct',
-        'add_block: the new block carries a rock type registered in the grid',
-        'add_connection: the new connection joins two distinct block objects of the grid',
-        'reorder: block_names is a permutation of the grid\'s block names, connection_names lists every connection once in either orientation',
+        'add_block: the new block carries a rock type (registered in the grid, or an object the grid has never seen with a free name, or the t2block constructor default); add_block() without a block is not run',
+        'add_block with the constructor default rock type: no registered rock type is named dfalt (that aliasing case is covered with a free symbolic rock name)',
+        'add_connection: the new connection joins two block objects of the grid (round 4: also the same block twice, and one block object that is not in the grid under a free name)',
+        'reorder: block_names / connection_names are lists of names of the grid\'s blocks / connections in either orientation (round 4: also proper subsets and lists with repeats)',
         'rename_blocks: the map is one-to-one and no target equals the name of a block that is not itself renamed (stated on the fix_blockname form of the names when fix_blocknames=True); block names in the grid are in fix_blockname form in those tasks',
         'minc: default naming functions; blocks given by name; scipy.optimize.bisect runs concretely (fractions and spacings are concrete)',
         'embed: the connection joins a block of the host grid (first) and a block of the sub-grid (second)',
